@@ -204,10 +204,27 @@ struct PackParse {
     values: Option<(Vec<Cell>, i128, i128)>,
 }
 
-fn pack_parse(base_xs: &Xstate, r: &mut crate::rng::Rng, fs: &[Field]) -> PackParse {
+fn pack_parse(base_xs: &Xstate, r: &mut crate::rng::Rng, fs: &[Field], nest: Option<(usize, usize)>) -> PackParse {
     let mut xs = base_xs.clone();
     let packed: Result<Xbitstr, String> = (|| {
-        let v = pieces(&mut xs, r, fs)?;
+        let mut v = pieces(&mut xs, r, fs)?;
+        if let Some((i, j)) = nest {
+            // [ a [ b c ] d ]: pieces i..j wrapped into a nested vector
+            let all: Vec<Cell> = v.iter().cloned().collect();
+            let mut inner = Xvec::new();
+            for c in &all[i..j] {
+                inner.push_back_mut(c.clone());
+            }
+            let mut outer = Xvec::new();
+            for c in &all[..i] {
+                outer.push_back_mut(c.clone());
+            }
+            outer.push_back_mut(Cell::Vector(inner));
+            for c in &all[j..] {
+                outer.push_back_mut(c.clone());
+            }
+            v = outer;
+        }
         exec(&mut xs, vec![Step::Push(Cell::Vector(v)), Step::Word(">bitstr".into())])?;
         match xs.pop_data() {
             Ok(Cell::Bitstr(b)) => Ok(b),
@@ -329,117 +346,159 @@ fn same_cell(a: &Cell, b: &Cell) -> bool {
     canon::cell(a) == canon::cell(b)
 }
 
+fn one_record(ctx: &mut Ctx, base: &Xstate, fs: Vec<Field>, all_splits: bool, only_whole: bool) {
+    let nf = fs.len();
+    // cstr/nulbytestr read only when the rest of the input is a whole number of bytes
+    let cstr_ok = (0..fs.len()).all(|i| !matches!(fs[i], Field::Cstr(_)) || fs[i..].iter().map(|f| f.width()).sum::<usize>() % 8 == 0);
+    let in_domain = fs.iter().all(|f| f.in_domain()) && cstr_ok;
+    if !cstr_ok {
+        ctx.tag("record:cstr-with-non-byte-rest");
+    }
+    let toks: Vec<String> = fs.iter().map(|f| f.token()).collect();
+    let mut rr = ctx.rng.fork();
+    let nest = if nf >= 1 && ctx.rng.chance(35) {
+        let i = ctx.rng.below(nf);
+        let j = i + ctx.rng.below(nf - i + 1);
+        ctx.tag("record:nested-vector");
+        Some((i, j))
+    } else {
+        None
+    };
+    let nest_tok = nest.map(|(i, j)| format!(" ^{},{}", i, j)).unwrap_or_default();
+    let pp = pack_parse(base, &mut rr, &fs, nest);
+    for f in &fs {
+        ctx.tag(match f {
+            Field::Int { w, signed, .. } => if *w % 8 == 0 { if *signed { "field:int:signed:byte-multiple" } else { "field:int:unsigned:byte-multiple" } } else if *signed { "field:int:signed:odd-width" } else { "field:int:unsigned:odd-width" },
+            Field::Flt { w: 32, .. } => "field:f32",
+            Field::Flt { .. } => "field:f64",
+            Field::Raw(..) => "field:raw",
+            Field::Str(_) => "field:str",
+            Field::Bytes(_) => "field:bytes",
+            Field::Cstr(_) => "field:cstr",
+        });
+        if let Field::Int { form, .. } | Field::Flt { form, .. } = f {
+            ctx.tag(match form { Form::Generic => "form:generic", Form::FixedBo => "form:fixed-le/be", Form::FixedCur => "form:fixed-current-order" });
+        }
+    }
+    ctx.tag(&format!("record:fields:{}", nf));
+    ctx.tag(if in_domain { "record:in-domain" } else { "record:malformed" });
+    // field start alignments actually exercised
+    let mut at = 0usize;
+    for f in &fs {
+        ctx.tag(&format!("field-start%8={}", at % 8));
+        at += f.width();
+    }
+    // splits: every single split position, plus one random multi-split
+    let mut splits: Vec<Vec<usize>> = (0..=nf).map(|j| vec![j]).collect();
+    let mut multi = vec![];
+    let mut left = nf;
+    while left > 0 && multi.len() < 5 {
+        let k = ctx.rng.below(left + 1);
+        multi.push(k);
+        left -= k;
+    }
+    splits.push(multi);
+    splits.push(vec![]);
+    if only_whole {
+        splits = vec![vec![]];
+    } else if !all_splits && nf > 6 {
+        // quick tier: a sample of the single split positions
+        let keep: Vec<usize> = (0..3).map(|_| ctx.rng.below(nf + 1)).collect();
+        splits = splits.into_iter().enumerate().filter(|(i, _)| *i > nf || keep.contains(i) || *i == 0 || *i == nf).map(|(_, s)| s).collect();
+    }
+    let total: usize = fs.iter().map(|f| f.width()).sum();
+    let case0 = format!("C07 {} /{}", toks.join(" "), nest_tok);
+    // oracle on pack + parse
+    if in_domain {
+        match (&pp.packed, &pp.values) {
+            (Some(bits), Some((vals, remain, rel))) => {
+                let mut bad = vec![];
+                if bits.len() != total {
+                    bad.push(format!("length {} is not the sum of the field widths {}", bits.len(), total));
+                }
+                let mut at = 0usize;
+                for f in &fs {
+                    if let Some(eb) = f.expected_bits() {
+                        if at + eb.len() > bits.len() || bits[at..at + eb.len()] != eb[..] {
+                            bad.push(format!("field {} at bit {} is not laid out as {}", f.token(), at, &bits_str(&eb)[1..]));
+                        }
+                    }
+                    at += f.width();
+                }
+                let exp: Vec<Cell> = fs.iter().map(|f| f.expected()).collect();
+                if exp.len() != vals.len() || !exp.iter().zip(vals).all(|(a, b)| same_cell(a, b)) {
+                    bad.push(format!("parsed values differ from the packed ones: expected {}", cells_str(&exp)));
+                }
+                // f64 fields must come back bit-exact, NaN payloads included
+                for (f, v) in fs.iter().zip(vals) {
+                    if let (Field::Flt { w: 64, x, .. }, Cell::Real(y)) = (f, v.value()) {
+                        if x.to_bits() != y.to_bits() {
+                            bad.push(format!("f64 {:016x} came back as {:016x}", x.to_bits(), y.to_bits()));
+                        }
+                    }
+                }
+                if *remain != 0 || *rel != total as i128 {
+                    bad.push(format!("remain = {} (offset {}) after parsing the whole record", remain, rel));
+                }
+                ctx.check(bad.is_empty(), || case0.clone(), || bad.join("; "), || format!("{} | {}", pp.p, pp.v));
+            }
+            _ => ctx.oracle_fail(case0.clone(), "an in-domain record packs and parses back without error".into(), format!("{} | {}", pp.p, pp.v)),
+        }
+    }
+    for sizes in splits {
+        let (o, pair) = emit_split(base, &mut rr, &fs, &sizes);
+        let case = format!("C07 {} / {} @{}{}", toks.join(" "), sizes.iter().map(|n| n.to_string()).collect::<Vec<_>>().join(" "), pp.base, nest_tok);
+        let case = case.replace("  ", " ");
+        ctx.tag(&format!("split:groups:{}", sizes.len() + 1));
+        if in_domain {
+            match (&pp.packed, &pair) {
+                (Some(bits), Some((out, len))) => {
+                    let ok = matches!(out, Cell::Bitstr(b) if bits_vec(b) == *bits) && matches!(len, Cell::Int(n) if *n == bits.len() as i128);
+                    ctx.check(ok, || case.clone(), || format!("output = the record's bits, output-length = {}", bits.len()), || o.clone());
+                }
+                _ => ctx.oracle_fail(case.clone(), "emit of an in-domain record succeeds".into(), o.clone()),
+            }
+        }
+        ctx.case(case, format!("{} | {} | {}", pp.p, pp.v, o));
+    }
+}
+
 pub fn run(ctx: &mut Ctx) {
     let base = Xstate::boot().unwrap();
+    // 1. exhaustive small scope: every width 1..128 × signedness × byte order × start alignment 0..7
+    //    (quick: one boundary value per cell, rotating; thorough: all of them)
+    let mut rot = 0usize;
+    for w in 1usize..=128 {
+        for signed in [false, true] {
+            if !signed && w == 128 {
+                continue;
+            }
+            for big in [false, true] {
+                for pre in 0usize..8 {
+                    let m: i128 = if w >= 127 { i128::MAX } else { (1i128 << w) - 1 };
+                    let vals = [0i128, 1, -1, m, m >> 1, (m >> 1) + 1, -(m >> 1) - 1, 0x5555_5555_5555_5555_5555_5555_5555_5555, i128::MIN, ctx.rng.next_u128() as i128];
+                    let picks: Vec<i128> = if ctx.thorough { vals.to_vec() } else { rot += 1; vec![vals[rot % vals.len()]] };
+                    for v in picks {
+                        let form = if matches!(w, 8 | 16 | 32 | 64) { [Form::Generic, Form::FixedBo, Form::FixedCur][rot % 3] } else { Form::Generic };
+                        let fs = vec![Field::Raw(gen_bits_exact(&mut ctx.rng, pre), ctx.rng.below(9)), Field::Int { w, signed, big, form, v }];
+                        ctx.tag("sweep:width×sign×order×alignment");
+                        one_record(ctx, &base, fs, false, true);
+                    }
+                }
+            }
+        }
+    }
+    // 2. random records
     for _ in 0..ctx.n {
         let nf = match ctx.rng.below(10) { 0 => 0, 1 => 1, _ => 1 + ctx.rng.below(12) };
         let bad_record = ctx.rng.chance(15);
         let bad_at = ctx.rng.below(nf.max(1));
         let fs: Vec<Field> = (0..nf).map(|i| gen_field(&mut ctx.rng, bad_record && i == bad_at)).collect();
-        // cstr/nulbytestr read only when the rest of the input is a whole number of bytes
-        let cstr_ok = (0..fs.len()).all(|i| !matches!(fs[i], Field::Cstr(_)) || fs[i..].iter().map(|f| f.width()).sum::<usize>() % 8 == 0);
-        let in_domain = fs.iter().all(|f| f.in_domain()) && cstr_ok;
-        if !cstr_ok {
-            ctx.tag("record:cstr-with-non-byte-rest");
-        }
-        let toks: Vec<String> = fs.iter().map(|f| f.token()).collect();
-        let expressible = true;
-        let mut rr = ctx.rng.fork();
-        let pp = pack_parse(&base, &mut rr, &fs);
-        for f in &fs {
-            ctx.tag(match f {
-                Field::Int { w, signed, .. } => if *w % 8 == 0 { if *signed { "field:int:signed:byte-multiple" } else { "field:int:unsigned:byte-multiple" } } else if *signed { "field:int:signed:odd-width" } else { "field:int:unsigned:odd-width" },
-                Field::Flt { w: 32, .. } => "field:f32",
-                Field::Flt { .. } => "field:f64",
-                Field::Raw(..) => "field:raw",
-                Field::Str(_) => "field:str",
-                Field::Bytes(_) => "field:bytes",
-                Field::Cstr(_) => "field:cstr",
-            });
-            if let Field::Int { form, .. } | Field::Flt { form, .. } = f {
-                ctx.tag(match form { Form::Generic => "form:generic", Form::FixedBo => "form:fixed-le/be", Form::FixedCur => "form:fixed-current-order" });
-            }
-        }
-        ctx.tag(&format!("record:fields:{}", nf));
-        ctx.tag(if in_domain { "record:in-domain" } else { "record:malformed" });
-        // field start alignments actually exercised
-        let mut at = 0usize;
-        for f in &fs {
-            ctx.tag(&format!("field-start%8={}", at % 8));
-            at += f.width();
-        }
-        // splits: every single split position, plus one random multi-split
-        let mut splits: Vec<Vec<usize>> = (0..=nf).map(|j| vec![j]).collect();
-        let mut multi = vec![];
-        let mut left = nf;
-        while left > 0 && multi.len() < 5 {
-            let k = ctx.rng.below(left + 1);
-            multi.push(k);
-            left -= k;
-        }
-        splits.push(multi);
-        splits.push(vec![]);
-        if !ctx.thorough && nf > 6 {
-            // quick tier: a sample of the single split positions
-            let keep: Vec<usize> = (0..3).map(|_| ctx.rng.below(nf + 1)).collect();
-            splits = splits.into_iter().enumerate().filter(|(i, _)| *i > nf || keep.contains(i) || *i == 0 || *i == nf).map(|(_, s)| s).collect();
-        }
-        let total: usize = fs.iter().map(|f| f.width()).sum();
-        let case0 = format!("C07 {} /", toks.join(" "));
-        // oracle on pack + parse
-        if in_domain {
-            match (&pp.packed, &pp.values) {
-                (Some(bits), Some((vals, remain, rel))) => {
-                    let mut bad = vec![];
-                    if bits.len() != total {
-                        bad.push(format!("length {} is not the sum of the field widths {}", bits.len(), total));
-                    }
-                    let mut at = 0usize;
-                    for f in &fs {
-                        if let Some(eb) = f.expected_bits() {
-                            if at + eb.len() > bits.len() || bits[at..at + eb.len()] != eb[..] {
-                                bad.push(format!("field {} at bit {} is not laid out as {}", f.token(), at, &bits_str(&eb)[1..]));
-                            }
-                        }
-                        at += f.width();
-                    }
-                    let exp: Vec<Cell> = fs.iter().map(|f| f.expected()).collect();
-                    if exp.len() != vals.len() || !exp.iter().zip(vals).all(|(a, b)| same_cell(a, b)) {
-                        bad.push(format!("parsed values differ from the packed ones: expected {}", cells_str(&exp)));
-                    }
-                    // f64 fields must come back bit-exact, NaN payloads included
-                    for (f, v) in fs.iter().zip(vals) {
-                        if let (Field::Flt { w: 64, x, .. }, Cell::Real(y)) = (f, v.value()) {
-                            if x.to_bits() != y.to_bits() {
-                                bad.push(format!("f64 {:016x} came back as {:016x}", x.to_bits(), y.to_bits()));
-                            }
-                        }
-                    }
-                    if *remain != 0 || *rel != total as i128 {
-                        bad.push(format!("remain = {} (offset {}) after parsing the whole record", remain, rel));
-                    }
-                    ctx.check(bad.is_empty(), || case0.clone(), || bad.join("; "), || format!("{} | {}", pp.p, pp.v));
-                }
-                _ => ctx.oracle_fail(case0.clone(), "an in-domain record packs and parses back without error".into(), format!("{} | {}", pp.p, pp.v)),
-            }
-        }
-        for sizes in splits {
-            let (o, pair) = emit_split(&base, &mut rr, &fs, &sizes);
-            let case = format!("C07 {} / {} @{}", toks.join(" "), sizes.iter().map(|n| n.to_string()).collect::<Vec<_>>().join(" "), pp.base);
-            let case = case.replace("  ", " ");
-            ctx.tag(&format!("split:groups:{}", sizes.len() + 1));
-            if in_domain {
-                match (&pp.packed, &pair) {
-                    (Some(bits), Some((out, len))) => {
-                        let ok = matches!(out, Cell::Bitstr(b) if bits_vec(b) == *bits) && matches!(len, Cell::Int(n) if *n == bits.len() as i128);
-                        ctx.check(ok, || case.clone(), || format!("output = the record's bits, output-length = {}", bits.len()), || o.clone());
-                    }
-                    _ => ctx.oracle_fail(case.clone(), "emit of an in-domain record succeeds".into(), o.clone()),
-                }
-            }
-            if expressible {
-                ctx.case(case, format!("{} | {} | {}", pp.p, pp.v, o));
-            }
-        }
+        let thorough = ctx.thorough;
+        one_record(ctx, &base, fs, thorough, false);
     }
+}
+
+fn gen_bits_exact(r: &mut crate::rng::Rng, n: usize) -> Vec<bool> {
+    (0..n).map(|_| r.bool()).collect()
 }
